@@ -683,6 +683,10 @@ pub fn run_plans(ctx: &Ctx, plans: Vec<Plan>, oracle: &Oracle, wall_cap: Duratio
     (cov, viol)
 }
 
+pub fn find_scenario_any(name: &str) -> Option<Scenario> {
+    find_scenario(name, Tier::Quick).or_else(|| find_scenario(name, Tier::Thorough))
+}
+
 fn find_scenario(name: &str, tier: Tier) -> Option<Scenario> {
     let mut all = vec![s1(tier), s1p(tier), s2(tier), s3(tier), micro(tier), micro2(tier), s4(tier), micro_fault(tier), s5(tier), micro_ticks(tier)];
     let dropped: Vec<Scenario> = all.iter().cloned().map(with_dropped_events).collect();
